@@ -220,7 +220,16 @@ fn test(case: &Case, st: &mut Stats, counting: bool) -> CaseResult {
     let watch = JailWatch::new();
     let mut trace: Vec<String> = vec![];
     let mut facts = (0usize, 0usize, 0usize, false); // hostile mutating ops, executed, tolerated ancestor lookups, content next to P
-    let pool = case.pool.clone();
+    let pool = {
+        // overlay markers are name + "_wo": keep long names within the host's 255-byte limit
+        let mut p = case.pool.clone();
+        if case.under.contains_overlay() {
+            for n in p.iter_mut() {
+                n.truncate(200);
+            }
+        }
+        p
+    };
     let r = guarded(|| -> Result<(), (usize, String)> {
         let e0 = |m: String| (0usize, m);
         let depth = 3usize;
@@ -266,6 +275,7 @@ fn test(case: &Case, st: &mut Stats, counting: bool) -> CaseResult {
         facts.3 = snap_a0.tree.m.keys().any(|k| !k.is_empty() && !is_within(k, &p_total) && !is_within(&p_total, k));
         let mut view = subtree(&snap_a0.tree, &p_total);
         log.lock().unwrap().clear();
+        let mut ended_early = false;
         for (i, (raw, h1, h2)) in case.ops.iter().enumerate() {
             let step = i + 1;
             let op = resolve(raw, &view, &ctx, Profile::Typed, false);
@@ -358,6 +368,12 @@ fn test(case: &Case, st: &mut Stats, counting: bool) -> CaseResult {
                 }
                 _ => return Err((step, format!("{} gives {} but the same call on P/q of the underlying filesystem gives {}", op_q.render(), out_a.render(), out_b.render()))),
             }
+            if op_q.is_composite() && !out_a.is_ok() && !out_b.is_ok() {
+                // a composite that fails on both sides may leave listing-order-dependent partial
+                // effects (unspecified by the properties): the twins can no longer be compared
+                ended_early = true;
+                break;
+            }
             // ... and the same effect on the WHOLE underlying tree, outside P included
             let sa = snapshot(&a_under);
             let sb = snapshot(&b_under);
@@ -373,6 +389,7 @@ fn test(case: &Case, st: &mut Stats, counting: bool) -> CaseResult {
             view = sv.tree;
             log.lock().unwrap().clear();
         }
+        let _ = ended_early;
         // (3) jail
         let mut esc = watch.check(&a.scratch, &pool);
         esc.extend(watch.check(&b.scratch, &pool));
